@@ -20,7 +20,7 @@ func init() {
 	Registry["C04"] = Spec{
 		Fn:          c04,
 		Level:       "fault_enumeration",
-		Rule:        "scenarios {select, select+telemetry, insert with schema exchange, streamed insert (2-3 rounds + tail), LZ4/ZSTD/None variants, external data} x fault points taken from a fault-free pilot run of each scenario: server stream cut (EOF and reset) after every byte k (all k for streams <= 512 B, else 256 sampled) ; client write error after every byte k of the query's bytes; every callback invocation failing (with a plain error, and with an error that wraps a *ch.Exception obtained elsewhere); an exception injected at every gate (before/after each client write, before each server packet, inside each callback, at each internal hook point: query/block encoded/flushed, packet code read, cancel-watch); unknown packet code and each well-formed but unexpected packet kind before each server packet; an input callback failing while the server has gone silent in the middle of a packet; exception together with a write error at an unrelated byte, and an exception consumed while a write is in flight that then fails after 0, 1 or 7 more bytes. Post-state oracle after Do returned an error: the client is closed (then Do/Ping return ErrClosed without any call on the connection), or it is open and the client byte stream is at a packet boundary, a follow-up Ping writes exactly 04 and completes. Do must return. Non-trivial = the planned fault fired and Do returned an error; distinct = (scenario, fault kind, fault point)",
+		Rule:        "scenarios {select, select+telemetry, insert with schema exchange, streamed insert (2-3 rounds + tail), LZ4/ZSTD/None variants, external data} x fault points taken from a fault-free pilot run of each scenario: server stream cut (EOF and reset) after every byte k (all k for streams <= 512 B, else 256 sampled) ; client write error after every byte k of the query's bytes; every callback invocation failing (with a plain error, and with an error that wraps a *ch.Exception obtained elsewhere); an exception injected at every gate (before/after each client write, before each server packet, inside each callback, at each internal hook point: query/block encoded/flushed, packet code read, cancel-watch); unknown packet code and each well-formed but unexpected packet kind before each server packet; an input callback failing while the server has gone silent in the middle of a packet; exception together with a write error at an unrelated byte, and an exception consumed while a write is in flight that then fails after 0, 1 or 7 more bytes. Post-state oracle after Do returned an error: the client is closed (then Do/Ping return ErrClosed without any call on the connection), or it is open and the client byte stream is at a packet boundary, a follow-up Ping writes exactly 04 and completes. Do must return. The same post-state rule is applied to a Ping that fails before or while its byte is written (context already done, write error). Non-trivial = the planned fault fired and Do returned an error; distinct = (scenario, fault kind, fault point)",
 		Assumptions: []string{"a finite read timeout (100 ms) so that a cancelled receive loop ends; exceptions are injected at packet boundaries of the server stream and nothing is sent after them, as a server does"},
 		MinDistinct: 300,
 	}
@@ -135,6 +135,14 @@ func c04(r *core.Run) {
 			}
 		}
 	}
+	// the client's other request
+	for _, v := range []string{"context-cancelled-before", "deadline-passed-before", "write-error@0"} {
+		ci++
+		if r.Take(ci) {
+			r.CaseLog(fmt.Sprintf("%d ping %s", ci, v))
+			c04Ping(r, v)
+		}
+	}
 }
 
 func byteOffsets(r *core.Run, n int64, seed int64) []int64 {
@@ -167,6 +175,72 @@ func shortCtx() (context.Context, context.CancelFunc) {
 
 func noDeadlineCtx() (context.Context, context.CancelFunc) {
 	return context.WithCancel(context.Background())
+}
+
+// c04Ping: the same post-state rule for the other request of the client. A Ping that fails before
+// or while its byte is written (context already done, write error) must leave the client closed
+// or with nothing pending: the next request starts with its own first byte.
+func c04Ping(r *core.Run, variant string) {
+	script := &simnet.Script{Rev: 54460}
+	sim := newSim(script)
+	script.OnQuery = func(*ref.Query) []simnet.Item { return []simnet.Item{{Data: simnet.PacketEnd()}} }
+	hctx, hcancel := context.WithTimeout(context.Background(), 10*time.Second)
+	err := sim.connect(hctx, ch.Options{ReadTimeout: 100 * time.Millisecond})
+	hcancel()
+	r.Eval()
+	desc := map[string]any{"request": "Ping", "variant": variant}
+	fail := func(class, msg string) { r.Violation(class, msg+" [Ping, "+variant+"]", desc) }
+	if err != nil {
+		fail("harness:handshake", err.Error())
+		return
+	}
+	cl, conn := sim.Client, sim.Conn
+	defer cl.Close()
+	ctx, cancel := context.WithCancel(context.Background())
+	switch variant {
+	case "context-cancelled-before":
+		cancel()
+	case "deadline-passed-before":
+		cancel()
+		ctx, cancel = context.WithDeadline(context.Background(), time.Now().Add(-time.Second))
+	case "write-error@0":
+		w := conn.WrittenBytes()
+		conn.Locked(func() { conn.WriteFailAfter = w })
+	}
+	defer cancel()
+	var perr error
+	if !runWithWatchdog(10*time.Second, func() { perr = cl.Ping(ctx) }) {
+		fail("ping-does-not-return", "Ping did not return")
+		return
+	}
+	if perr == nil {
+		fail("ping-succeeded", "Ping returned nil although its context was done / its write failed")
+		return
+	}
+	r.NonTrivial("ping", variant)
+	conn.Locked(func() { conn.WriteFailAfter = -1 })
+	if cl.IsClosed() {
+		before := len(conn.Events())
+		if e := cl.Ping(context.Background()); !errors.Is(e, ch.ErrClosed) || len(conn.Events()) != before {
+			fail("closed-client-accepts-calls", fmt.Sprintf("closed client: Ping=%v, %d calls on the connection", e, len(conn.Events())-before))
+		}
+		return
+	}
+	w0 := conn.WrittenBytes()
+	var e2 error
+	ok := runWithWatchdog(10*time.Second, func() {
+		c2, cancel2 := context.WithTimeout(context.Background(), 5*time.Second)
+		defer cancel2()
+		e2 = cl.Do(c2, ch.Query{Body: "SELECT 1", QueryID: "after-failed-ping"})
+	})
+	all, _ := conn.Written()
+	if next := all[w0:]; len(next) == 0 || next[0] != 0x01 {
+		fail("stale-bytes-before-next-request:ping", fmt.Sprintf("client left open after Ping failed with %q; the next query wrote % x... instead of starting with its Query packet (the unsent Ping is sent later)", firstLineOf(perr.Error()), clip(next)))
+		return
+	}
+	if !ok || e2 != nil {
+		fail("open-client-unusable:ping", fmt.Sprintf("client left open after Ping failed with %q but the next query fails: %v", firstLineOf(perr.Error()), e2))
+	}
 }
 
 func c04One(r *core.Run, sc scn, seed int64, f *fault) {
